@@ -1013,6 +1013,12 @@ func ruleInvalidate(c *Ctx) {
 	spk := c.P.ByRel["internal/server"]
 	info := spk.TypesInfo
 	n := 0
+	var changeFd *ast.FuncDecl
+	if h, _, _, _ := changeHandler(c.P); h != nil {
+		if o, ok := h.Object().(*types.Func); ok {
+			changeFd = c.P.declOf[o]
+		}
+	}
 	for _, f := range spk.Syntax {
 		for _, d := range f.Decls {
 			fd, ok := d.(*ast.FuncDecl)
@@ -1026,26 +1032,9 @@ func ruleInvalidate(c *Ctx) {
 					role = "didSave"
 				}
 			}
-			// the change handler is the method that stores the new text: it has a loop over content changes
-			// and a Store into the document sync.Map
-			if role == "" {
-				hasStore, hasLoop := false, false
-				ast.Inspect(fd.Body, func(x ast.Node) bool {
-					switch s := x.(type) {
-					case *ast.CallExpr:
-						if qualName(calleeOf(info, s)) == "sync.Map.Store" {
-							hasStore = true
-						}
-					case *ast.RangeStmt:
-						if se, ok := ast.Unparen(s.X).(*ast.SelectorExpr); ok && se.Sel.Name == "ContentChanges" {
-							hasLoop = true
-						}
-					}
-					return true
-				})
-				if hasStore && hasLoop {
-					role = "didChange"
-				}
+			// the change handler: found from the data flow (the method that stores the text folded over the changes)
+			if role == "" && changeFd != nil && fd == changeFd {
+				role = "didChange"
 			}
 			if role == "" {
 				continue
